@@ -900,6 +900,49 @@ def bnd6(units, R, functions=None, nonterm=None):
                 if not pruned:
                     break
                 left = [c for c in _sccs(g2, set(g2)) if len(c) > 1 or c[0] in g2.get(c[0], ())]
+            # what is left after the forward steps: an inner loop that walks a pointer or counter backwards down to a bound that
+            # stands still in that loop (while ((p > start) && (p[-1] == c)) p--;) ends as well
+            for _pass in range(4):
+                if not left:
+                    break
+                down = set()
+                for scc in left:
+                    sset = set(scc)
+                    effects = [(m, e2) for m in scc for e2 in node_effects(cfg.nodes[m])]
+                    assigned = {}
+                    for (m, e2) in effects:
+                        if e2.kind in ('store', 'incdec') and is_ref(e2.lhs):
+                            assigned.setdefault(strip_casts(e2.lhs)['d'], []).append((m, e2))
+                    addr = {strip_casts(x['e']).get('d') for m in scc for r_ in [cfg.nodes[m].expr] if r_ is not None for x in walk(r_)
+                            if x.get('k') == 'un' and x['op'] == '&' and strip_casts(x['e']).get('k') == 'ref'}
+                    for d, defs_ in assigned.items():
+                        if d in addr or not all(e2.kind == 'incdec' and e2.delta < 0 for (_m, e2) in defs_):
+                            continue
+                        for m in scc:
+                            mn = cfg.nodes[m]
+                            if mn.kind != 'branch' or mn.expr is None:
+                                continue
+                            e2 = strip_casts(mn.expr)
+                            if e2.get('k') != 'bin' or e2['op'] not in ('<', '<=', '>', '>=', '!='):
+                                continue
+                            lo_, hi_ = (e2['r'], e2['l']) if e2['op'] in ('>', '>=', '!=') else (e2['l'], e2['r'])
+                            if not (is_ref(hi_) and strip_casts(hi_)['d'] == d):
+                                continue
+                            bound = {x.get('d') for x in walk(lo_) if x.get('k') == 'ref'}
+                            if bound & (set(assigned) | addr) or \
+                                    any(x.get('k') in ('call', 'mem', 'idx') or (x.get('k') == 'un' and x['op'] == '*') for x in walk(lo_)):
+                                continue
+                            # the loop is left where the bound is reached
+                            stay = 'T' if e2['op'] in ('>', '>=', '!=') else ('T' if strip_casts(e2['l']) is strip_casts(lo_) else None)
+                            if any(y not in sset and l is not None and l[0] == 'F' for (y, l) in cfg.succ[m]) and stay == 'T':
+                                for (m2, e3) in defs_:
+                                    down.add(m2)
+                                    steps.append('%s (down to %s)' % (expr_str(e3.node), expr_str(lo_)[:30]))
+                if not down:
+                    break
+                progress |= down
+                g2 = {n: {m for m in g2[n] if m not in down} for n in g2 if n not in down}
+                left = [c for c in _sccs(g2, set(g2)) if len(c) > 1 or c[0] in g2.get(c[0], ())]
             head = min(cfg.nodes[n].line for n in comp)
             R.ob('BND6', fn, None, 'loop at line %d advances a cursor on every iteration' % head, not left,
                  'steps: %s' % sorted(set(steps))[:4] if not left else
@@ -1335,6 +1378,211 @@ def tab5a(units, R):
                     zero_checked = True
     R.ob('TAB5a', fn, sw, 'a failed UTF-16 conversion (result 0) is tested', zero_checked, '', key='esc-utf16-zero')
     R.floor('TAB5a', 'escape letters', n, 9)
+
+
+# ---- TAB23 the scan for the closing quote ------------------------------------------------------------------------------------
+
+def _quote_search_calls(fn):
+    """calls of memchr / strchr in fn that look for the double quote"""
+    out = []
+    for c in fn.calls():
+        if callee_name(c) in ('memchr', 'strchr', '__builtin_memchr', '__builtin_strchr') and len(c['args']) >= 2 and \
+                const_val(c['args'][1]) == ord('"'):
+            out.append(c)
+    return out
+
+
+def tab23(units, R, fn_name='parse_string'):
+    """Where a string literal ends.  Before it decodes, parse_string looks for the closing quote; what the decoder later takes for the
+    text of the literal is whatever lies in front of that position, so the two must agree on it: the quote that ends the literal
+    is the first one that is not the second byte of an escape sequence.
+      forward form (a loop that looks at every byte; byte-path engine, all 256 values of the byte under the cursor): the loop is
+        left towards the decoder exactly on '"' without stepping, steps over two bytes on a backslash and over one byte on everything
+        else, and leaves in no other way than by failing;
+      search form (the quote is found by memchr/strchr): a quote that was found ends the literal iff the run of backslashes
+        directly in front of it has even length - an inner loop walks back over the run and the branch that decides tests the
+        parity of what it counted, leaving the search on the even side; looking only at the one byte in front of the quote
+        takes the quote behind an escaped backslash for an escaped one."""
+    from . import bytepath as bp
+    u = units['cJSON.c']
+    fn = u.functions.get(fn_name)
+    if fn is None or fn.body is None:
+        raise AnalysisBroken('TAB23: %s not found' % fn_name)
+    searches = _quote_search_calls(fn)
+    if searches:
+        _tab23_search(u, fn, searches, R)
+        return
+    ex = bp.explore(u, fn)
+    Q, BS = ord('"'), ord('\\')
+    heads = {}
+    for sg in bp.loop_segments(ex):
+        heads.setdefault(sg.start, []).append(sg)
+    cands = []
+    for h, sgs in heads.items():
+        cont = [sg for sg in sgs if sg.end == ('head', h)]
+        if not cont or any(w[3] is not None for sg in cont for w in sg.writes):
+            continue
+        cur = {c for sg in cont for c in sg.readers}
+        onward = [sg for sg in sgs if sg.end[0] == 'head' and sg.end[1] != h]
+        if len(cur) == 1 and onward:
+            cands.append((h, next(iter(cur)), sgs))
+    if len(cands) != 1:
+        raise AnalysisBroken('TAB23: the loop of %s that looks for the closing quote cannot be identified (%d candidates)' % (fn_name, len(cands)))
+    h, c, sgs = cands[0]
+    line = min(sg.line for sg in sgs if sg.end == ('head', h))
+    acts = {d: set() for d in range(256)}
+    blind = []
+    for sg in sgs:
+        if sg.end[0] == 'return' and sg.end[1] == ('k', 0):
+            continue                    # failing is always allowed
+        if c not in sg.readers:
+            blind.append(sg)
+            continue
+        bs = sg.bytes_at(c)
+        vals = range(256) if bs == bp.ALL else bs
+        if sg.end == ('head', h):
+            a = ('step', sg.adv(c))
+        elif sg.end[0] == 'head':
+            a = ('leave', sg.adv(c))
+        else:
+            a = ('other', str(sg.end))
+        for d in vals:
+            acts[d].add(a)
+    R.ob('TAB23', fn, None, 'the scan for the closing quote looks at the byte under its cursor on every path', not blind,
+         '' if not blind else 'a path ending at line %d goes on without reading it' % blind[0].line, key='scan-reads', line=line)
+    bad_q = acts[Q] != {('leave', 0)}
+    R.ob('TAB23', fn, None, 'on \'"\' the scan stops with the cursor on the quote', not bad_q,
+         'it leaves towards the decoder without stepping' if not bad_q else 'paths for the quote: %s' % sorted(map(str, acts[Q])), key='scan-quote', line=line)
+    bad_b = acts[BS] != {('step', 2)}
+    R.ob('TAB23', fn, None, 'on a backslash the scan steps over the escaped byte as well', not bad_b,
+         'two bytes' if not bad_b else 'paths for the backslash: %s - the decoder takes the byte after a backslash as part of the escape '
+         'sequence, so a quote there does not end the literal' % sorted(map(str, acts[BS])), key='scan-backslash', line=line)
+    wrong = [d for d in range(256) if d not in (Q, BS) and acts[d] != {('step', 1)}]
+    R.ob('TAB23', fn, None, 'every other byte is stepped over alone', not wrong,
+         '254 values, one byte each' if not wrong else 'byte %d: %s' % (wrong[0], sorted(map(str, acts[wrong[0]]))), key='scan-others', line=line)
+    R.floor('TAB23', 'byte classes of the scan for the closing quote', 3, 3)
+
+
+def _tab23_search(u, fn, searches, R):
+    cfg = fn.cfg()
+    succ = {m.id: {y for (y, _l) in cfg.succ[m.id]} for m in cfg.nodes}
+    BS = ord('\\')
+
+    def reach(a, avoid=()):
+        seen = set()
+        work = [y for y in succ[a] if y not in avoid]
+        while work:
+            x = work.pop()
+            if x in seen:
+                continue
+            seen.add(x)
+            work.extend(y for y in succ[x] if y not in avoid and y not in seen)
+        return seen
+    n = 0
+    for call in searches:
+        sn = cfg.node_of_expr(call['id'])
+        if sn is None:
+            raise AnalysisBroken('TAB23: search call at %s not placed in the CFG' % fn.where(call))
+        # the found position: the variable the result is assigned to, and pointers copied from it
+        found = set()
+        for a in assignments(fn):
+            if a['op'] == '=' and is_ref(a['l']) and any(x is call for x in walk(a['r'])):
+                found.add(strip_casts(a['l'])['d'])
+        for d_ in fn.locals():
+            if 'init' in d_ and any(x is call for x in walk(d_['init'])):
+                found.add(d_['d'])
+        if not found:
+            raise AnalysisBroken('TAB23: %s: what the search for the quote found is not kept in a variable' % fn.where(call))
+        changed = True
+        while changed:
+            changed = False
+            for a in assignments(fn):
+                if a['op'] == '=' and is_ref(a['l']) and is_ref(a['r']) and strip_casts(a['r'])['d'] in found and strip_casts(a['l'])['d'] not in found:
+                    # only copies made behind the search and in front of the next one
+                    an = cfg.node_of_expr(a['id'])
+                    if an is not None and an.id in reach(sn.id):
+                        found.add(strip_casts(a['l'])['d'])
+                        changed = True
+        after = reach(sn.id)
+        on_search_loop = sn.id in after
+        # branches behind the search that compare a byte in front of the found position with a backslash
+        looks = []
+        for m in cfg.nodes:
+            if m.kind != 'branch' or m.id not in after or m.expr is None:
+                continue
+            pc = cmp_parts(m.expr)
+            if pc is None or pc[2] != BS or pc[1] not in ('==', '!='):
+                continue
+            rd = strip_casts(pc[0])
+            base = idx = None
+            if rd.get('k') == 'idx':
+                base, idx = strip_casts(rd['b']), rd['i']
+            elif rd.get('k') == 'un' and rd['op'] == '*':
+                inner = strip_casts(rd['e'])
+                if inner.get('k') == 'bin' and inner['op'] in ('+', '-'):
+                    base, idx = strip_casts(inner['l']), inner['r']
+            if base is None or base.get('k') != 'ref' or base['d'] not in found:
+                continue
+            looks.append((m, base, idx))
+        if not looks:
+            if on_search_loop:
+                raise AnalysisBroken('TAB23: %s: how a quote found by %s is told from an escaped one is not a test of the bytes in '
+                                     'front of it; this form of the scan is not modelled' % (fn.where(call), callee_name(call)))
+            continue
+        n += 1
+        # the walk back over the run: a look that lies on a cycle which does not pass the search again
+        inner = [(m, b, i) for (m, b, i) in looks if m.id in reach(m.id, avoid={sn.id})]
+        single = [(m, b, i) for (m, b, i) in looks if (m, b, i) not in inner]
+        for (m, b, i) in single:
+            R.ob('TAB23', fn, m.expr, 'a quote found by %s is judged by the whole run of backslashes in front of it' % callee_name(call), False,
+                 'the test %s looks at one byte only: behind an escaped backslash (\\\\") the quote ends the literal, but is taken for '
+                 'an escaped quote, and the literal for longer than the decoder and the printer have it' % expr_str(m.expr)[:50],
+                 key='search:single:%s' % expr_str(m.expr)[:40])
+        if not inner:
+            continue
+        # what the walk counts: variables stepped on the inner cycle
+        counted = set()
+        for (m, b, i) in inner:
+            cyc = reach(m.id, avoid={sn.id}) & {x for x in succ if m.id in reach(x, avoid={sn.id})}
+            for x in cyc | {m.id}:
+                for ev in node_effects(cfg.nodes[x]):
+                    if ev.kind in ('incdec', 'store') and is_ref(ev.lhs):
+                        counted.add(strip_casts(ev.lhs)['d'])
+        parity = []
+        for m in cfg.nodes:
+            if m.kind != 'branch' or m.id not in after or m.expr is None:
+                continue
+            e = strip_casts(m.expr)
+            even_label = None
+            pc = cmp_parts(e)
+            core = e
+            if pc is not None and pc[1] in ('==', '!=') and pc[2] in (0, 1):
+                core = strip_casts(pc[0])
+                even_label = 'T' if (pc[1] == '==') == (pc[2] == 0) else 'F'
+            else:
+                neg = False
+                while core.get('k') == 'un' and core['op'] == '!':
+                    neg = not neg
+                    core = strip_casts(core['e'])
+                even_label = 'T' if neg else 'F'
+            if not (core.get('k') == 'bin' and ((core['op'] == '&' and const_val(core['r']) == 1) or (core['op'] == '%' and const_val(core['r']) == 2))):
+                continue
+            if not any(x.get('k') == 'ref' and x.get('d') in counted for x in walk(core['l'])):
+                continue
+            parity.append((m, even_label))
+        if not parity:
+            R.ob('TAB23', fn, inner[0][0].expr, 'the length of the run of backslashes in front of a found quote decides by its parity', False,
+                 'the run is walked but no branch tests whether its length is even', key='search:noparity')
+            continue
+        for (m, even_label) in parity:
+            tgt = {l[0]: y for (y, l) in cfg.succ[m.id] if l is not None and l[0] in ('T', 'F')}
+            ev_t, odd_t = tgt.get(even_label), tgt.get('F' if even_label == 'T' else 'T')
+            leaves = ev_t is not None and sn.id not in (reach(ev_t) | {ev_t})
+            goes_on = odd_t is not None and (not on_search_loop or sn.id in (reach(odd_t) | {odd_t}))
+            R.ob('TAB23', fn, m.expr, 'an even run of backslashes in front of a found quote ends the literal, an odd one does not', leaves and goes_on,
+                 'even: the search is over; odd: it goes on behind the quote' if leaves and goes_on else
+                 ('on an even run the search goes on' if not leaves else 'on an odd run the search stops'), key='search:parity')
+    R.floor('TAB23', 'quotes found by searching and judged by the bytes in front of them', n, 1)
 
 
 # ---- TAB6 UTF-16 / UTF-8 constants ----------------------------------------------------------------------------------------
